@@ -41,8 +41,8 @@ def gen_cases(tier, seed):
     for (v, lv, mode, n) in gen.boundaries(('byte',)):
         if isinstance(v, str) or (tier == 'quick' and v > 6):
             continue
-        for d in (0, -1, 1, -2):
-            k = n - 2 + d      # 12 header bits = 1.5 bytes: the boundary with the header lies 1-2 bytes below n
+        for d in (0, -1, 1, -2, 2, 3):
+            k = n - 2 + d      # 12 header bits = 1.5 bytes: the boundary with the header lies 1-2 bytes below n (n itself included)
             if k < 1:
                 continue
             kw = {'eci': True, 'encoding': 'utf-8'}
